@@ -353,3 +353,9 @@ def execute(vc):
     vc.ensure("O-C02-execute.aggregation", res.target_id == 2 and res.observations == [f"obs{s}{x}" for s in (10, 11, 12) for x in "ab"]
               and res.missed_observations == [f"miss{s}" for s in (10, 11, 12)]
               and res.sensor_info_list == [{"sensor_id": s, "boresight": f"bore{s}", "time_last_tasked": f"time{s}"} for s in (10, 11, 12)])
+
+
+# the pair-level obligations above take the mask / visibility-order predicates "by contract": re-checked in this property's own run
+from pyvc.harness import share as _share  # noqa: E402
+from contracts import C14 as _C14  # noqa: E402,F401
+_share("C14", "masks", "C02")
